@@ -59,6 +59,9 @@ static carquet_schema_t* pq_make_schema(const pq_schema_t* s) {
 /* status of every writer call, so harnesses can state "all calls returned OK" */
 typedef struct { int create_ok; int n_calls; carquet_status_t worst; carquet_status_t close_status; } pq_wstat_t;
 
+/* optional pattern of write_batch sizes (used when batch_rows == -1): batch k takes pq_batch_pattern[k % pq_batch_pattern_len] rows */
+static const int* pq_batch_pattern; static int pq_batch_pattern_len;
+
 /* number of present rows among rows [r0, r1) of a column */
 static int pq_present(const pq_schema_t* s, const pq_column_t* col, int c, int r0, int r1) {
     if (s->rep[c] == CARQUET_REPETITION_REQUIRED) return r1 - r0;
@@ -83,9 +86,10 @@ static int pq_write(const char* path, const pq_schema_t* s, const pq_column_t* c
         if (g > 0) { carquet_status_t st = carquet_writer_new_row_group(w); ws->n_calls++; if (st != CARQUET_OK && ws->worst == CARQUET_OK) ws->worst = st; }
         for (int c = 0; c < s->ncols; c++) {
             size_t esz = pq_type_size(s->type[c], s->type_len[c]);
-            int r = row0;
+            int r = row0, bk = 0;
             while (r < row0 + nr || (nr == 0 && r == row0)) {
                 int take = batch_rows > 0 ? batch_rows : nr;
+                if (batch_rows == -1 && pq_batch_pattern_len > 0) take = pq_batch_pattern[bk++ % pq_batch_pattern_len];
                 if (r + take > row0 + nr) take = row0 + nr - r;
                 int voff = pq_present(s, &cols[c], c, 0, r);              /* dense value index of row r */
                 int nvals = pq_present(s, &cols[c], c, r, r + take);
